@@ -112,6 +112,17 @@ class C19(PureCheck):
             "whose texts are equal but run lists differ, or repr cases with >=1 formatted run")
     exhaustive = {"quick": False, "thorough": False}
 
+    def prepare(self, tier):
+        # earlier in the process every fmtfuncs helper was called with further names and keywords (red('x', bold=True),
+        # on_blue('x', 'underline'), bold('x', fg='cyan')): what those calls returned says nothing about the bare helpers
+        # a repr is evaluated with
+        for name, fn in fmtfuncs_ns().items():
+            for args, kw in ((("underline",), {}), ((), {"bold": True}), ((), {"fg": "cyan"}), (("on_magenta", "invert"), {"blink": False})):
+                try:
+                    str(fn("p", *args, **kw))
+                except Exception:  # noqa
+                    pass
+
     def design_runs(self, tier):
         cfg = ("SPECIFICATION Spec\nCONSTANT UVals = %s\nINVARIANT EqualStringsShowTheSame\nINVARIANT ReprRoundTrip\nCHECK_DEADLOCK FALSE\n"
                % ("{0}" if tier == "quick" else "{0, 1, 2}"))
